@@ -278,7 +278,7 @@ func TestC11Sim(t *testing.T) {
 
 // C11 (real-time part): every acknowledged change reaches the store within the persist interval.
 func TestC11Persist(t *testing.T) {
-	col := ev.Get("C11", "persist", "16 runners at a time, each driven through a generated short history (schedule/cancel/finish/timer/hold) without any explicit save, left alone for the persist interval, then given 0-2 late single changes - or one job completion that is deliberately placed behind the saves which the reports of its last task trigger (scheduler loop parked, last task finished, loop released after more than a persist interval) - and left alone again; after 3 s (the persist interval) + 1.5 s slack the last snapshot the store received must equal the reported state of every job; a canary timer marks the batch inconclusive if the process was starved; non-trivial = the history changed state after the first automatic save (so the debounced second save is what must deliver it); distinct by action trace")
+	col := ev.Get("C11", "persist", "16 runners at a time, each driven through a generated short history (schedule/cancel/finish/timer/hold) without any explicit save, left alone for the persist interval, then given 0-2 late single changes - or one job completion that is deliberately placed behind the saves which the reports of its last task trigger (scheduler loop parked, last task finished, loop released after more than a persist interval), or a change that is acknowledged while a store write is in progress (the slow write being the persist loop's own save or an explicit save made while the loop pauses) - and left alone again; after 3 s (the persist interval) + 1.5 s slack the last snapshot the store received must equal the reported state of every job; a canary timer marks the batch inconclusive if the process was starved; non-trivial = the history changed state after the first automatic save (so the debounced second save is what must deliver it); distinct by action trace")
 	cfg := &Cfg{Prop: "C11", MaxPipelines: 2, MaxTasks: 3, DelayPct: 25, ReplacePct: 20, AllowFailPct: 15, ContinuePct: 30,
 		LimitChoices: []int{-1, -1, 2, 3}, Weights: map[string]int{"schedule": 34, "cancel": 10, "finish": 30, "timer": 8, "hold": 3, "release": 4},
 		Armed: map[string]bool{"C11": true}}
@@ -326,6 +326,11 @@ func TestC11Persist(t *testing.T) {
 			n := rapid.IntRange(0, 2).Draw(rt, "lateSteps")
 			for _, pm := range parkedOf {
 				if pm == m {
+					n = -1
+				}
+			}
+			if n >= 0 && pct(rt, 35, "changeDuringSlowSave") {
+				if m.ChangeDuringSlowSave(rt, rapid.SampledFrom([]string{"loop", "explicit"}).Draw(rt, "slowSaveVariant")) {
 					n = 0
 				}
 			}
@@ -369,7 +374,7 @@ func TestC11Persist(t *testing.T) {
 					m.fail("C11", "job #%d: the store lags behind the reported state after the persist interval: %s", j.AcceptIdx, d)
 				}
 			}
-			col.Add(strings.Join(m.w.Trace, "\n"), saves >= 2, map[string]int{"second-automatic-save": btoi(saves >= 2), "jobs>=3": btoi(len(s.Jobs) >= 3), "completion-behind-save": m.w.Stats.Classes["completion-behind-save"], "completion-behind-save:no-candidate": m.w.Stats.Classes["completion-behind-save:no-candidate"], "prepared": m.w.Stats.Classes["prepared"]}, m.w.Stats.Steps, m.w.Trace)
+			col.Add(strings.Join(m.w.Trace, "\n"), saves >= 2, map[string]int{"second-automatic-save": btoi(saves >= 2), "jobs>=3": btoi(len(s.Jobs) >= 3), "completion-behind-save": m.w.Stats.Classes["completion-behind-save"], "completion-behind-save:no-candidate": m.w.Stats.Classes["completion-behind-save:no-candidate"], "prepared": m.w.Stats.Classes["prepared"], "change-during-slow-save:loop": m.w.Stats.Classes["change-during-slow-save:loop"], "change-during-slow-save:explicit": m.w.Stats.Classes["change-during-slow-save:explicit"]}, m.w.Stats.Steps, m.w.Trace)
 		}
 	})
 }
